@@ -1766,6 +1766,101 @@ run_s9(void *arg)
 }
 
 // ---- driver --------------------------------------------------------------------
+// ---- S10: one notification is un-registered, the others stay ------------------------------------------------
+// nng_pipe_notify(s, ev, NULL, NULL) removes ONE callback.  For every event u that is removed, at every
+// moment (before any pipe / while a pipe is attached / between two pipes), and for every order in which the
+// three were registered: the callbacks that are still registered keep firing for old and new pipes (every
+// ADD_POST gets its REM_POST by the time close returns), the removed one stays silent.
+static int s10_cnt[4][8]; // [event][pipe ordinal]
+static uint32_t s10_ids[8];
+static int      s10_np;
+static void
+s10_cb(nng_pipe p, nng_pipe_ev ev, void *arg)
+{
+	(void) arg;
+	int k;
+	for (k = 0; k < s10_np; k++)
+		if (s10_ids[k] == (uint32_t) p.id)
+			break;
+	if (k == s10_np) {
+		if (s10_np >= 8)
+			vs_fail("harness:ledger", "too many pipes");
+		s10_ids[s10_np++] = (uint32_t) p.id;
+	}
+	if ((int) ev < 0 || (int) ev > 3)
+		vs_fail("C14:order", "callback with unknown event %d", (int) ev);
+	s10_cnt[ev][k]++;
+}
+static void
+run_s10(void *arg)
+{
+	(void) arg;
+	static const nng_pipe_ev E3[3] = { NNG_PIPE_EV_ADD_PRE, NNG_PIPE_EV_ADD_POST,
+		NNG_PIPE_EV_REM_POST };
+	static const int ORD[3][3] = { { 0, 1, 2 }, { 2, 1, 0 }, { 1, 2, 0 } };
+	vh_init(0);
+	memset(s10_cnt, 0, sizeof(s10_cnt));
+	s10_np = 0;
+	nng_socket a, b1, b2;
+	int        u    = vs_choose(VK_ENV, 3); // which one is removed
+	int        when = vs_choose(VK_ENV, 3); // 0 before any pipe, 1 with pipe #1 attached, 2 after pipe #1 left
+	int        ord  = vs_choose(VK_ENV, 3);
+	int        again = vs_choose(VK_ENV, 2); // the removed one is registered again before pipe #2
+	VH_OK(nng_pull0_open(&a));
+	for (int i = 0; i < 3; i++)
+		VH_OK(nng_pipe_notify(a, E3[ORD[ord][i]], s10_cb, NULL));
+	VH_OK(nng_listen(a, "inproc://c14s10", NULL, 0));
+	if (when == 0)
+		VH_OK(nng_pipe_notify(a, E3[u], NULL, NULL));
+	VH_OK(nng_push0_open(&b1));
+	VH_OK(nng_dial(b1, "inproc://c14s10", NULL, 0));
+	vs_settle();
+	if (when == 1)
+		VH_OK(nng_pipe_notify(a, E3[u], NULL, NULL));
+	nng_socket_close(b1);
+	vs_settle();
+	if (when == 2)
+		VH_OK(nng_pipe_notify(a, E3[u], NULL, NULL));
+	if (again)
+		VH_OK(nng_pipe_notify(a, E3[u], s10_cb, NULL));
+	VH_OK(nng_push0_open(&b2));
+	VH_OK(nng_dial(b2, "inproc://c14s10", NULL, 0));
+	vs_settle();
+	nng_socket_close(a);
+	// judged at the return of close (no scheduling point since)
+	int cnt[4][2];
+	for (int e = 1; e <= 3; e++)
+		for (int k = 0; k < 2; k++)
+			cnt[e][k] = s10_cnt[e][k];
+	nng_socket_close(b2);
+	vs_nontrivial();
+	if (s10_np > 2)
+		vs_fail("C14:order", "events for %d pipes, two connected", s10_np);
+	for (int k = 0; k < 2; k++)
+		for (int i = 0; i < 3; i++) {
+			int e = (int) E3[i];
+			// is e registered while pipe k goes through it?
+			int reg = 1;
+			if (i == u) {
+				if (k == 0)
+					reg = when == 0 ? 0 : (i == 2 && when == 1) ? 0 : 1;
+				else
+					reg = again;
+			}
+			if (cnt[e][k] != reg)
+				vs_fail(reg ? "C14:event-missing-after-unregister" : "C14:unregistered-callback-ran",
+				    "pipe #%d: %s delivered %d time(s), expected %d (callbacks registered in order "
+				    "%d; %s removed %s%s)",
+				    k + 1, evname(E3[i]), cnt[e][k], reg, ord, evname(E3[u]),
+				    when == 0       ? "before any pipe"
+				        : when == 1 ? "while pipe #1 was attached"
+				                    : "after pipe #1 left",
+				    again ? ", registered again before pipe #2" : "");
+		}
+	vs_outcome("u=%d when=%d again=%d", u, when, again);
+	vh_fini();
+}
+
 static void
 explore(const char *name, void (*fn)(void *), void *arg, int p, int sw, int t,
     int total)
@@ -1848,6 +1943,7 @@ main(int argc, char **argv)
 		    (v & 2) ? "rep" : "pull");
 		explore(strdup(name), run_s8, (void *) (intptr_t) v, 0, 0, 0, 0);
 	}
+	explore("S10-unregister-one", run_s10, NULL, 0, 0, 0, 0);
 	static s4arg s4[] = { { 0 }, { 1 }, { 2 } };
 	static const char *s4n[] = { "S4-accept-pair0", "S4-accept-pull",
 		"S4-accept-rep" };
